@@ -210,6 +210,14 @@ func genLength(r *gen.Rand) int {
 	return r.Range(101, 2000)
 }
 
+func sum(v []float64) float64 {
+	t := 0.0
+	for _, x := range v {
+		t += x
+	}
+	return t
+}
+
 func runWeights(c *mon.Case) {
 	r := c.R
 	L := genLength(r)
@@ -236,6 +244,7 @@ func runWeights(c *mon.Case) {
 		if !checkVector(c, b.name, w, L, float64(L), true, ctx) {
 			continue
 		}
+		kept := append([]float64{}, w...) // the caller keeps w while it draws the vectors of other replicates / alignments
 		rand.Seed(seed)
 		w2 := b.f(al)
 		if !sameBits(w, w2) {
@@ -244,6 +253,11 @@ func runWeights(c *mon.Case) {
 		rand.Seed(seed + 1)
 		w3 := b.f(al)
 		if !checkVector(c, b.name, w3, L, float64(L), true, fmt.Sprintf("L=%d seed=%d", L, seed+1)) {
+			continue
+		}
+		other := b.f(mkAlign(r, L+r.PickInt([]int{1, 5, -1, 40})+1))
+		if !sameBits(w, kept) {
+			c.Failf(b.name+":vector-overwritten-by-a-later-call", "%s: the vector returned for %s changed while later vectors were drawn (same alignment under two seeds, then an alignment of %d sites): it now sums to %v\nas returned=%s\nnow        =%s", b.name, ctx, len(other), sum(w), short(kept), short(w))
 			continue
 		}
 		if sameBits(w, w3) {
